@@ -34,6 +34,41 @@ theorem dictFrom_keys_nodup {β : Type} (ps : List (String × β)) : ((dictFrom 
   | nil => intro d h; exact h
   | cons p ps ih => intro d h; exact ih _ (dictIns_nodup d p.1 p.2 h)
 
+/-! ### `patchset extract --with-metadata` -/
+
+/-- a key that only the patch's own metadata has (`name`, `values`, extra annotations) is emitted unchanged -/
+theorem extract_metadata_patch_level_kept {β : Type} (pm sm : List (String × β)) (k : String)
+    (hk : ∀ x ∈ sm, x.1 ≠ k) : dictGet (extractMetadata pm sm) k = dictGet pm k := by
+  unfold extractMetadata dictUpdate
+  induction sm generalizing pm with
+  | nil => rfl
+  | cons e es ih =>
+    simp only [List.foldl_cons]
+    rw [ih _ (fun x hx => hk x (by simp [hx])), dictIns_get]
+    simp [Ne.symm (hk e (by simp))]
+
+/-- a key of the patch set's metadata is emitted with the patch set's value, whatever the patch's own metadata says -/
+theorem extract_metadata_set_level_wins {β : Type} (pm sm : List (String × β)) (k : String) (v : β)
+    (hk : dictGet sm k = some v) (hnd : (sm.map (·.1)).Nodup) : dictGet (extractMetadata pm sm) k = some v := by
+  induction sm generalizing pm with
+  | nil => simp [dictGet] at hk
+  | cons e es ih =>
+    have hnd2 := List.nodup_cons.mp (show (e.1 :: es.map (·.1)).Nodup by simpa using hnd)
+    by_cases hek : e.1 = k
+    · have hv : e.2 = v := by
+        unfold dictGet at hk; simp [List.find?_cons, hek] at hk; exact hk
+      have hne : ∀ x ∈ es, x.1 ≠ k := by
+        intro x hx hxk; exact hnd2.1 (List.mem_map.mpr ⟨x, hx, by rw [hxk, hek]⟩)
+      have := extract_metadata_patch_level_kept (dictIns pm e.1 e.2) es k hne
+      unfold extractMetadata dictUpdate at this ⊢
+      simp only [List.foldl_cons]
+      rw [this, dictIns_get]; simp [hek, hv]
+    · have hk' : dictGet es k = some v := by
+        unfold dictGet at hk ⊢; simpa [List.find?_cons, hek] using hk
+      have := ih (dictIns pm e.1 e.2) hk' hnd2.2
+      unfold extractMetadata dictUpdate at this ⊢
+      simpa only [List.foldl_cons] using this
+
 /-! ### backend aliases -/
 
 theorem backend_aliases :
